@@ -48,6 +48,7 @@ pub fn run(run: &RunInfo) -> Summary {
                 noise: false,
                 delay_ms: 0,
                 focus19: true,
+                rearm_dangling: false,
             }
         } else {
             HistParams {
@@ -62,6 +63,7 @@ pub fn run(run: &RunInfo) -> Summary {
                 noise: noisy,
                 delay_ms: slow,
                 focus19: true,
+                rearm_dangling: false,
             }
         };
         let st = dbx::explore(if noisy { 1 } else { 0 }, 200_000_000, |ctx| {
@@ -81,6 +83,42 @@ pub fn run(run: &RunInfo) -> Summary {
             acc.count("capped", 1);
         }
     });
+    // the same dangling receipt number turns up again after every end-of-day (the terminal's counter
+    // restarted): every clean-up has to reverse it again
+    if !skip_for_replay(run, "c19/rearm/") {
+        let firsts = all_ops.len();
+        let a = par_for(firsts * 2, |ix, acc| {
+            let (first, max) = (ix % firsts, 1 + ix / firsts);
+            let p = HistParams {
+                max,
+                depth,
+                ops: all_ops.clone(),
+                dangling: Some(7),
+                reservation_menu: vec![Outcome::Ok],
+                commit_menu: vec![Outcome::Ok, Outcome::Abort(0x6c)],
+                cancel_menu: vec![Outcome::Ok],
+                eod_menu: vec![Eod::Completion],
+                noise: false,
+                delay_ms: 0,
+                focus19: true,
+                rearm_dangling: true,
+            };
+            dbx::explore(0, 50_000_000, |ctx| {
+                let o = history(ctx, &p, Some(first), acc);
+                acc.count("executions", 1);
+                acc.count("rearm_histories", 1);
+                if !o.c19.is_empty() {
+                    let choices = ctx.choices();
+                    acc.violation(viol(
+                        format!("c19/rearm/max={max}/first={first}/choices={choices:?}"),
+                        format!("transactions_max_num = {max}; the terminal holds the dangling pre-authorisation 7 again after every end-of-day\nhistory:\n  {}\nviolations:\n  {}", o.trace.join("\n  "), o.c19.join("\n  ")),
+                        o.trace.len() as u64,
+                    ));
+                }
+            });
+        });
+        acc.merge(a);
+    }
     // every receipt number 0..=9999 as the dangling pre-authorisation the terminal reports, on the
     // shortest histories that go idle
     if !skip_for_replay(run, "c19/dangling-sweep/") {
@@ -98,6 +136,7 @@ pub fn run(run: &RunInfo) -> Summary {
                     noise: false,
                     delay_ms: 0,
                     focus19: true,
+                    rearm_dangling: false,
                 };
                 dbx::explore(0, 1_000_000, |ctx| {
                     let o = history(ctx, &p, Some(0), acc);
@@ -131,6 +170,7 @@ pub fn run(run: &RunInfo) -> Summary {
                     noise: false,
                     delay_ms: 0,
                     focus19: true,
+                    rearm_dangling: false,
                 };
                 let (levels, states, transitions, fix) = bfs(&p, 12, &format!("c19/max={max}/dangling={dangling:?}"), |o| &o.c19, &mut acc);
                 acc.count("bfs_states", states as u64);
@@ -163,7 +203,7 @@ pub fn run(run: &RunInfo) -> Summary {
         transitions: acc.get("transitions"),
         traces_validated: execs,
         distinct_nontrivial: acc.get("w_idle_cleanups") + acc.get("w_closed_while_others_open"),
-        rule: format!("real Feig client against the simulated terminal: transactions_max_num 1..=2 x terminal ledger {{no dangling pre-authorisation, one}} x all histories of depth {depth} over begin/commit/cancel x tokens {{A,B}} + read_card, terminal outcomes chosen lazily (reservation: success / abort / status information naming a receipt number followed by an abort; commit: completion with status, completion without status, abort; cancel: completion/abort; end-of-day: completion, status+completion, abort A0, 6C, FF); a second pass at depth - 1 with every single deviation of the reply shape of any exchange (no / two intermediate statuses, a print line, an extra status information); a pass at depth - 1 against a slow terminal whose every reply packet takes 45 s resp. 59 s (inside the per-packet time-out); a state-deduplicated breadth-first search from every reachable state until no new state appears; plus every dangling receipt number 0..=9999 and all 256 end-of-day abort codes on the histories begin;commit and begin;cancel with and without a dangling pre-authorisation. Temporal oracle on the terminal's request log. distinct_nontrivial = steps at which the clean-up rule or the no-end-of-day rule applied"),
+        rule: format!("real Feig client against the simulated terminal: transactions_max_num 1..=2 x terminal ledger {{no dangling pre-authorisation, one}} x all histories of depth {depth} over begin/commit/cancel x tokens {{A,B}} + read_card, terminal outcomes chosen lazily (reservation: success / abort / status information naming a receipt number followed by an abort; commit: completion with status, completion without status, abort; cancel: completion/abort; end-of-day: completion, status+completion, abort A0, 6C, FF); a second pass at depth - 1 with every single deviation of the reply shape of any exchange (no / two intermediate statuses, a print line, an extra status information); a pass at depth - 1 against a slow terminal whose every reply packet takes 45 s resp. 59 s (inside the per-packet time-out); a state-deduplicated breadth-first search from every reachable state until no new state appears; a pass in which the same dangling receipt number is pending again after every end-of-day; plus every dangling receipt number 0..=9999 and all 256 end-of-day abort codes on the histories begin;commit and begin;cancel with and without a dangling pre-authorisation. Temporal oracle on the terminal's request log. distinct_nontrivial = steps at which the clean-up rule or the no-end-of-day rule applied"),
         exhaustive: true,
         required_witnesses: vec![
             "the state-deduplicated search reached its fixed point".into(),
